@@ -177,6 +177,10 @@ class ModelStateTransformer:
         return self._state
 
     @property
+    def state_converter(self) -> Optional[StateForModelConverter]:
+        return self._state_converter
+
+    @property
     def num_evaluations(self) -> Dict[str, int]:
         """
         :return: Number of observed cases for which model parameters were
